@@ -121,6 +121,21 @@ def check(case):
                 events.add('rejected-description')
                 if backend == 'dict' and not all(same_source(b, a, k) for k, (b, a) in enumerate(zip(pristine, src))):
                     raise Violation('source-modified-by-rejected-merge', f'{desc}\nsources now {src}')
+                if backend == 'json':
+                    # the rejection must be stable: the same object must not answer from a half-merged state later
+                    for attempt in ('data', 'dataset_names', 'get_dataset'):
+                        try:
+                            if attempt == 'data':
+                                db.data
+                            elif attempt == 'dataset_names':
+                                db.dataset_names
+                            else:
+                                list(db.get_dataset(DS_NAMES[0]))
+                        except Exception:
+                            continue
+                        raise Violation('rejected-description-answers-later',
+                                        f'{desc}\nafter the description was rejected, {attempt} on the same object '
+                                        f'succeeded (model: {invalid})')
                 return events
             raise Violation('valid-description-rejected', f'{desc}\n{type(e).__name__}: {str(e)[:300]}')
         if invalid:
@@ -135,6 +150,15 @@ def check(case):
                         raise Violation('source-modified', f'{desc}\n{where}: part {k} is now {a}\nwas {b}')
 
         check_sources('after construction')
+        other = None
+        if case.get('second_db') and backend == 'dict':
+            parts2 = copy.deepcopy(pristine)
+            for p2 in parts2:
+                for dsn, exs in p2['datasets'].items():
+                    for eid, ex in exs.items():
+                        ex['v'] = 'second-' + str(ex.get('v'))
+            other = (database.DictDatabase(copy.deepcopy(parts2)), model_merge(parts2))
+            events.add('second-database')
         for si, req in enumerate(case['requests']):
             kind = req[0]
             if kind == 'gc':
@@ -193,6 +217,18 @@ def check(case):
                 again = db.get_dataset(name)
                 if again is not ds:
                     raise Violation('not-shared', f'{desc}\nget_dataset({name!r}) twice in a row: different objects')
+            if other is not None and isinstance(name, str):
+                # a second database object with equally named datasets but other contents answers for itself,
+                # also while `ds` (a dataset of the first database) is alive
+                db2, (d2, a2, _) = other
+                want2 = expected(d2, a2, name)
+                try:
+                    got2 = list(db2.get_dataset(name))
+                except Exception as e:
+                    got2 = ('raise', str(e))
+                if not isinstance(want2, tuple) and got2 != want2:
+                    raise Violation('databases-share-datasets', f'{desc}\nsecond database, request {name!r}: {got2}\n'
+                                                                f'expected {want2}')
             # handed out examples are copies: mutating them must not reach the source
             for g in got:
                 g['example_id'] = 'mutated'
@@ -255,7 +291,7 @@ def st_case(draw):
         else:
             reqs.append(['get', draw(st.sampled_from(names_all)), draw(st.booleans())])
     return {'backend': draw(st.sampled_from(['dict', 'json'])), 'form': draw(st.sampled_from(['varargs', 'list'])),
-            'parts': parts, 'requests': reqs}
+            'parts': parts, 'requests': reqs, 'second_db': draw(st.integers(0, 3)) == 0}
 
 
 def run_shard(tier, idx, nshards, rec, known):
